@@ -1878,7 +1878,14 @@ class Exec(Engine):
             cur = st.frames[st.cur].get(name)
             if cur is None:
                 continue
-            if isinstance(cur, (VFunc, VPy)):
+            if isinstance(cur, VFunc):
+                continue
+            if isinstance(cur, VPy):
+                import types as _t
+                if isinstance(cur.obj, (_t.ModuleType, _t.FunctionType, _t.BuiltinFunctionType, type)):
+                    continue        # a module / function / class bound to a name: re-binding it in a loop is not modelled
+                # a Python singleton (e.g. NOT_EVALED) held by a variable the body assigns: any value at the loop head
+                st.frames[st.cur][name] = VVal(self.ctx.fresh(name, sort_of(('val',))))
                 continue
             st.frames[st.cur][name] = self.fresh_like(cur, name, st)
         muts = mutated_exprs(body) if spec.modifies is None else set(spec.modifies)
